@@ -63,6 +63,8 @@ def _progress(steps, at):
 
 def gen(rng, tier):
     yield from _gen_bad_accept(rng, tier)
+    yield from _gen_ws_h2(rng, tier)
+    yield from _gen_many_failures(rng, tier)
     for be in ("asyncio", "trio"):
         for paths in ([b"/crash0", b"/ok1"], [b"/crash1", b"/ok2"], [b"/crash0", b"/crash1", b"/crash0", b"/ok3"]):
             yield {"family": "serve-smoke", "kind": "serve-smoke", "backend": be, "paths": paths}
@@ -292,6 +294,59 @@ def _gen_bad_accept(rng, tier):
                    "sched": {"seed": rng.randrange(1 << 30)}, "horizon": 100.0}
 
 
+def _gen_many_failures(rng, tier):
+    """'... the connection's other streams, later connections and the server itself keep working': a thousand applications failing in
+    mid-response on one HTTP/2 connection must leave nothing behind that a later, healthy request trips over."""
+    from ..wire.h2raw import FrameBuilder, client_preface
+
+    for rep in range(1 if tier == "quick" else 3):
+        fb = FrameBuilder()
+        nfail = 1050
+        client = [["feed", client_preface(fb, {})], ["settle"]]
+        sid = 1
+        for b in range(0, nfail, 50):
+            blob = b""
+            for _ in range(50):
+                blob += fb.headers(sid, [(b":method", b"GET"), (b":scheme", b"http"), (b":path", b"/fail"), (b":authority", b"h")], end_stream=True)
+                sid += 2
+            client += [["feed", blob], ["settle"]]
+        ok_sid = sid
+        client += [["feed", fb.headers(ok_sid, [(b":method", b"GET"), (b":scheme", b"http"), (b":path", b"/ok"), (b":authority", b"h")], end_stream=True)], ["settle"]]
+        yield {"family": "h2.many-failures", "backends": ["asyncio", "trio"], "config": {"keep_alive_timeout": 5000, "keep_alive_max_requests": 100000, "h2_max_concurrent_streams": 100},
+               "conn": {}, "apps": {"default": [["recv_until_end"], ["respond", 200, [], b"fine"]],
+                                    "by_path": {"/fail": [["recv_until_end"], ["send", {"type": "http.response.start", "status": 200, "headers": []}], ["note", "crash-point"], ["raise", "Exception"]]}},
+               "client": client, "reactor": {"kind": "h2", "credit": "auto"}, "truth": {"proto": "h2-many", "kind": "raise", "ok_sid": ok_sid, "nfail": nfail},
+               "sched": {"seed": rng.randrange(1 << 30)}, "horizon": 1000.0}
+
+
+def _gen_ws_h2(rng, tier):
+    """WebSocket over HTTP/2 (extended CONNECT): the application fails (a) after accept - the client must see the session end (a close frame
+    and/or the end or reset of the stream), (b) in the middle of an HTTP response to the handshake - the stream is reset, never left open.
+    A sibling request on the same connection keeps working."""
+    from ..wire.h2raw import FrameBuilder, client_preface
+
+    for rep in range(2 if tier == "quick" else 20):
+        for where in ("after-accept", "after-accept-and-send", "mid-rejection-body", "after-rejection-start"):
+            for kind in ("raise", "return"):
+                tag = 7800000 + rep * 100 + len(where) * 2 + (kind == "raise")
+                if where.startswith("after-accept"):
+                    steps = [["recv"], ["send", {"type": "websocket.accept"}]] + ([["send", {"type": "websocket.send", "text": "hi"}]] if where.endswith("send") else [])
+                else:
+                    steps = [["recv"], ["send", {"type": "websocket.http.response.start", "status": 401, "headers": [(b"x-why", b"auth")]}]] + \
+                            ([["send", {"type": "websocket.http.response.body", "body": b"par", "more_body": True}]] if where == "mid-rejection-body" else [])
+                script = steps + [["note", "crash-point"], ["raise", "Exception"] if kind == "raise" else ["return"]]
+                fb = FrameBuilder()
+                hd = [(b":method", b"CONNECT"), (b":protocol", b"websocket"), (b":scheme", b"http"), (b":path", b"/t%d" % tag), (b":authority", b"h"),
+                      (b"sec-websocket-version", b"13")]
+                first = client_preface(fb, {}) + fb.headers(1, hd, end_stream=False)  # (HPACK: encoded in the order they are sent)
+                sib = fb.headers(3, [(b":method", b"GET"), (b":scheme", b"http"), (b":path", b"/sib"), (b":authority", b"h")], end_stream=True)
+                client = [["feed", first], ["settle"], ["feed", sib], ["settle"]]
+                yield {"family": "wsh2.%s.%s" % (where, kind), "backends": ["asyncio", "trio"], "config": {"keep_alive_timeout": 5000}, "conn": {},
+                       "apps": {"default": [["recv_until_end"], ["respond", 200, [], b"sib-ok"]], "websocket": script}, "client": client,
+                       "reactor": {"kind": "h2", "credit": "auto"},
+                       "truth": {"proto": "wsh2", "where": where, "kind": kind, "tag": tag}, "sched": {"seed": rng.randrange(1 << 30)}, "horizon": 100.0}
+
+
 def nontrivial(case, obs):
     if obs is None:
         return True
@@ -475,6 +530,35 @@ def check(case, obs, tally):
                 out.append({"clause": "siblings", "sig": "C05.sibling-broken/h2/%s" % kind,
                             "detail": "sibling stream %d did not complete: %r" % (sid, None if ss is None else (ss.status, bytes(ss.data)[:20], ss.ended, ss.rst))})
                 break
+    elif t["proto"] == "h2-many":
+        rx = obs.reactor
+        s_ = rx.streams.get(t["ok_sid"])
+        tally.clause("siblings")
+        if s_ is None or s_.status != 200 or bytes(s_.data) != b"fine" or s_.ended != 1:
+            out.append({"clause": "siblings", "sig": "C05.later-stream-broken/h2/after-many-failures",
+                        "detail": "after %d applications had failed in mid-response on this connection a healthy request got %r (goaway %r)" % (
+                            t["nfail"], None if s_ is None else (s_.status, bytes(s_.data)[:20], s_.ended, s_.rst), rx.goaway)})
+    elif t["proto"] == "wsh2":
+        from ..wire import ws as _ws
+
+        rx = obs.reactor
+        s1, s3 = rx.streams.get(1), rx.streams.get(3)
+        tally.clause("truncated")
+        terminated = s1 is not None and (s1.ended or s1.rst is not None)
+        p_ = _ws.FrameParser(False, False)
+        if s1 is not None and s1.status == 200:
+            p_.feed(bytes(s1.data))
+        if not terminated and not (t["where"].startswith("after-accept") and p_.close is not None):
+            out.append({"clause": "truncated", "sig": "C05.not-terminated/wsh2/%s" % t["where"],
+                        "detail": "WebSocket over HTTP/2, application %s %s: the stream was neither ended nor reset%s (status %r, %d body bytes)" % (
+                            "raised" if kind == "raise" else "returned", t["where"], "" if not t["where"].startswith("after-accept") else " and no close frame was sent",
+                            None if s1 is None else s1.status, 0 if s1 is None else len(s1.data))})
+        if t["where"] == "mid-rejection-body" and s1 is not None and s1.ended and s1.rst is None:
+            out.append({"clause": "truncated", "sig": "C05.falsely-complete/wsh2/rejection-body",
+                        "detail": "the response to the handshake was cut short by the application's failure but ended with END_STREAM"})
+        tally.clause("siblings")
+        if s3 is None or s3.status != 200 or bytes(s3.data) != b"sib-ok" or s3.ended != 1:
+            out.append({"clause": "siblings", "sig": "C05.sibling-broken/wsh2", "detail": "sibling request: %r" % (None if s3 is None else (s3.status, bytes(s3.data)[:20], s3.ended, s3.rst),)})
     else:
         rx = obs.reactor
         if not t["accepted"] and t["at"] < 2:
